@@ -83,6 +83,33 @@ func (d *driver) generate() {
 			d.addDec(wrap1(dyn(el(kBytes, 0, 0))), cat(wordInt(32), wordInt(c), wordyRandom(r, rem)), 0, "corpus:guard-flip")
 		}
 	}
+	// D11b: a fixed array whose declared length the data cannot hold (the type, not the data, names the size)
+	for _, k := range []int{4294967295, 2147483647, 16777215, 65536} {
+		d.addDec(wrap1(fix(u256, k)), nil, 0, "corpus:D11b-declared-length")
+		d.addDec(wrap1(fix(u256, k)), r.Bytes(64), 0, "corpus:D11b-declared-length")
+		d.addDec(wrap1(fix(el(kString, 0, 0), k)), wordInt(32), 0, "corpus:D11b-declared-length")
+		d.addDec(tup(el(kUint, 8, 0), fix(tup(el(kBytesN, 2, 0), el(kBool, 0, 0)), k)), cat(wordInt(1), r.Bytes(96)), 0, "corpus:D11b-declared-length")
+		d.addDec(wrap1(dyn(fix(u256, k))), cat(wordInt(32), wordInt(1), r.Bytes(64)), 0, "corpus:D11b-declared-length")
+	}
+	// ... and the flip points of that guard: k entries against a remaining length r
+	for _, rem := range []int{0, 1, 31, 32, 33, 63, 64, 65, 96, 128} {
+		for dk := -1; dk <= 2; dk++ {
+			k := rem/32 + dk
+			if k < 1 {
+				continue
+			}
+			data := r.Bytes(rem)
+			d.addDec(wrap1(fix(u256, k)), data, 0, "corpus:fixed-guard-flip")
+			d.addDec(wrap1(fix(el(kBytesN, 1, 0), k)), data, 0, "corpus:fixed-guard-flip")
+			d.addDec(wrap1(fix(el(kFunction, 0, 0), k)), data, 0, "corpus:fixed-guard-flip")
+			d.addDec(wrap1(fix(tup(el(kBytesN, 2, 0), el(kUint, 8, 0)), k)), data, 0, "corpus:fixed-guard-flip")
+			d.addDec(tup(el(kUint, 8, 0), fix(el(kBytesN, 3, 0), k)), cat(wordInt(5), data), 0, "corpus:fixed-guard-flip")
+			// dynamic entries: offset to the array, then k offsets
+			d.addDec(wrap1(fix(el(kBytes, 0, 0), k)), cat(wordInt(32), wordyRandom(r, rem)), 0, "corpus:fixed-guard-flip")
+			d.addDec(wrap1(fix(dyn(el(kUint, 8, 0)), k)), cat(wordInt(32), wordyRandom(r, rem)), 0, "corpus:fixed-guard-flip")
+			d.addDec(wrap1(fix(fix(u256, 0), k)), data, 0, "corpus:fixed-guard-flip")
+		}
+	}
 	// a bytes1[] whose last element is cut short after its single byte decoded before the repair and must still
 	d.addDec(wrap1(dyn(el(kBytesN, 1, 0))), cat(wordInt(32), wordInt(2), padRight([]byte{0xaa}), []byte{0xbb}), 0, "corpus:last-element-cut-short")
 	d.addDec(wrap1(dyn(el(kFunction, 0, 0))), cat(wordInt(32), wordInt(2), padRight(r.Bytes(24)), r.Bytes(24)), 0, "corpus:last-element-cut-short")
